@@ -87,7 +87,8 @@ def run_C12(ctx):
     # input immutability: every driver's workload with the ARGS clause enforced
     k = sz(ctx, 800, 20000)
     drive_and_validate(ctx, [{"driver": "ARGS:" + d, "n": k, "probes": 4} for d in
-                             ("C01", "C06", "C11", "C14", "C15", "C16", "C19")])
+                             ("C01", "C06", "C11", "C14", "C15", "C16", "C19", "C05", "C10", "C08", "C04", "C09", "C02", "UTIL")])
+    drive_and_validate(ctx, [{"driver": "ARGS:C07", "n": max(200, k // 2), "probes": 4}])
 
 
 def run_C03(ctx):
